@@ -230,6 +230,14 @@ pub fn exec(case: &PfCase) -> RunOut {
         }
     }
     let gets: Vec<usize> = (0..12).map(|_| rng.usize_below(n.max(1))).chain([0, n.saturating_sub(1), n]).collect();
+    // a few select queries as well: "every query gives the same result with or without the prefetch feature"
+    let selects: Vec<Q> = (0..10)
+        .map(|_| {
+            let c = *rng.pick(&syms);
+            let cnt = v.iter().filter(|&&x| x == c).count();
+            Q::Select(Sym(c), rng.usize_below(cnt + 2))
+        })
+        .collect();
     // ---- baseline: fault point disarmed
     let base: Vec<(A, A)> = qs.iter().map(|(r, p)| (ask(t.as_ref(), r), ask(t.as_ref(), p))).collect();
     let base_gets: Vec<A> = gets.iter().map(|&i| ask(t.as_ref(), &Q::Get(i))).collect();
@@ -251,6 +259,9 @@ pub fn exec(case: &PfCase) -> RunOut {
     }
     for a in &base_gets {
         a.digest(&mut digest);
+    }
+    for q in &selects {
+        ask(t.as_ref(), q).digest(&mut digest);
     }
     // ---- perturbed: every prefetch estimate may be arbitrarily wrong at the sink
     if case.prob > 0 {
